@@ -16,6 +16,9 @@ QUICK = [
     # answer as master (MM): own master address, length rule
     ("ans-master", ["answer=1", "submit=0", "qq=03,1f", "zz=31,36", "nn=2", "snn=0", "data=42,00", "pb=b5", "sb=09",
                     "ans=aa:31:b509:42:0100", "ans=aa:36:b509:4242:0155", "longto=0"]),
+    # answers registered for a master address that is NOT ebusd's own one (and for a foreign slave): ACK only for the master destination
+    ("ans-foreign-master", ["answer=1", "submit=0", "qq=03", "zz=10,15", "nn=2", "snn=0", "data=42,00", "pb=b5", "sb=09",
+                            "ans=aa:10:b509:42:0100", "ans=aa:15:b509:42:0142", "longto=0", "echofaults=0"]),
     # answer data that needs escaping (a9 -> a9 00, aa -> a9 01), CRC over the escaped sequence, NAK + single repetition
     ("ans-escaped", ["answer=1", "submit=0", "qq=03", "zz=36", "nn=0", "snn=0", "pb=b5", "sb=09", "ans=aa:36:b509:-:02a9aa", "longto=0"]),
     # the same through the enhanced adapter (every answer byte is a SEND request, echo comes back as RECEIVED frame)
